@@ -339,7 +339,7 @@ func ruleDeadlineDirection(c *Ctx, r *R) {
 	// at once)
 	nArm := 0
 	for _, fr := range deepFrames(fn, 2) {
-		for _, op := range chanOpsOf(fr.f) {
+		for _, op := range fr.chanOps() {
 			for _, a := range op.arms {
 				if a.send || a.kind != "timer" {
 					continue
@@ -373,7 +373,7 @@ func ruleDeadlineDirection(c *Ctx, r *R) {
 		}
 	}
 	for _, fr := range deepFrames(fn, 2) {
-		for _, op := range chanOpsOf(fr.f) {
+		for _, op := range fr.chanOps() {
 			for _, a := range op.arms {
 				if a.body == nil {
 					continue
@@ -1241,7 +1241,6 @@ func isJitterParam(v ssa.Value) bool {
 	p, ok := v.(*ssa.Parameter)
 	return ok && periodRole(p) == "jitter"
 }
-
 
 // isTickerOwned: t is JitterTicker, or a struct type of the package that JitterTicker holds by value in one of its fields (a
 // group of the ticker's fields moved into a small struct: armed armedTimer{gen, timer}) - such fields are the ticker's own.
